@@ -502,7 +502,8 @@ def run_case(c, stats):
     except re.error:
         core.LOG.discard("generator_produced_invalid_pattern")
         return False
-    ok, r = call(PythonRegex, p)
+    # the pattern is given as text or, every fifth time, as a compiled pattern object
+    ok, r = call(PythonRegex, re.compile(p) if c["sseed"] % 5 == 0 else p)
     if not ok:
         return True
     rng = random.Random(c["sseed"])
